@@ -109,6 +109,7 @@ CaseResult run_compressed(const RunCtx &ctx, TapeReader &t, unsigned size_hint) 
     o.size_hint = size_hint;
     o.xkeys = ctx.x("xkeys");
     o.xthreads = ctx.x("xthreads");
+    o.allow_giant = ctx.mode != "mem";
     std::vector<K> keys = gen_keys<K>(t, o, meta);
     const bool excluded = false; // KF-2 (last key near the numeric maximum) was repaired; nothing is excluded any more
     std::ostringstream head;
@@ -193,6 +194,7 @@ CaseResult run_bucketing(const RunCtx &ctx, TapeReader &t, unsigned size_hint) {
     o.size_hint = size_hint;
     o.xkeys = ctx.x("xkeys");
     o.xthreads = ctx.x("xthreads");
+    o.allow_giant = ctx.mode != "mem";
     o.span_multiple_edge = TLS;
     o.pow2_span_edge = true;
     std::vector<K> keys = gen_keys<K>(t, o, meta);
@@ -310,7 +312,9 @@ CaseResult run_ef(const RunCtx &ctx, TapeReader &t, unsigned size_hint) {
     o.size_hint = size_hint;
     o.xkeys = ctx.x("xkeys");
     o.xthreads = ctx.x("xthreads");
+    o.allow_giant = ctx.mode != "mem";
     o.pow2_span_edge = true;
+    o.ef_bimodal = ctx.mode != "mem";
     std::vector<K> keys = gen_keys<K>(t, o, meta);
 
     // KNOWN FINDING KF-3 (excluded by construction, counted): 64-bit keys with first key 0 and last key max-1 make the rebased closing
